@@ -318,6 +318,16 @@ def gen_C13(w, tier):
         els = elems_f(R)
         zero, _ = R.zero()
         has_neg = ps.kind == "ed"
+        if has_neg:
+            nz, o = R.neg(zero)
+            must(o.startswith("ok") and R.eq(nz, zero) == "ok true", "-Zero != Zero: %s" % o)
+            if els:
+                d0, o = R.sub(zero, els[-1])
+                back, o2 = R.add(d0, els[-1])
+                must(o.startswith("ok") and o2.startswith("ok") and R.eq(back, zero) == "ok true", "(Zero - a) + a != Zero: %s %s" % (o, o2))
+        else:
+            _, o = R.neg(zero)          # integer-group elements offer no negate(): must raise, never return garbage
+            must(not o.startswith("ok"), "integer-group element offers negate()")
         pairs = [(a, b) for a in els for b in els]
         if len(pairs) > n_pairs:
             pairs = r.sample(pairs, n_pairs)
